@@ -5,12 +5,8 @@ pub mod siphasher {
         /// SipHash-2-4 of `data` under key (k0,k1): uninterpreted.  Its quality as a PRF is assumed,
         /// never proved; contracts only use that it is a *function* of key and transcript.
         pub uninterp spec fn sip24(k0: u64, k1: u64, data: Seq<u8>) -> u64;
-        /// native-endian (x86-64: little-endian) byte images, as written by `Hasher::write_uN`
-        pub open spec fn le_bytes(x: nat, n: nat) -> Seq<u8>
-            decreases n
-        {
-            if n == 0 { Seq::<u8>::empty() } else { seq![(x % 256) as u8] + le_bytes(x / 256, (n - 1) as nat) }
-        }
+        /// native-endian (x86-64: little-endian) byte images, as written by `Hasher::write_uN`: shim::le_bytes
+        pub use crate::shim::le_bytes;
         pub struct SipHasher24 { pub k0: u64, pub k1: u64, pub transcript: Ghost<Seq<u8>> }
         impl SipHasher24 {
             #[verifier::external_body]
@@ -31,6 +27,37 @@ pub mod siphasher {
             #[verifier::external_body]
             pub fn finish(&self) -> (r: u64)
                 ensures r == sip24(self.k0, self.k1, self.transcript@) { unimplemented!() }
+        }
+    }
+}
+pub mod flate2 {
+    use vstd::prelude::*;
+    /// the zlib stream flate2 produces for `data` at the default level: uninterpreted.  Assumed (never
+    /// proved): it inflates to exactly `data`, and it is at most |data| + |data|/8 + 64 bytes long.
+    pub uninterp spec fn zlib_of(data: Seq<u8>) -> Seq<u8>;
+    #[verifier::external_body]
+    pub broadcast proof fn axiom_zlib_len(data: Seq<u8>)
+        ensures 0 < (#[trigger] zlib_of(data)).len() <= data.len() + data.len() / 8 + 64 {}
+    pub struct Compression { pub level: u32 }
+    impl Compression {
+        #[verifier::external_body]
+        pub fn default() -> (r: Compression) { unimplemented!() }
+    }
+    pub mod write {
+        use vstd::prelude::*;
+        use super::{Compression, zlib_of};
+        pub struct ZlibEncoder { pub sink: Vec<u8>, pub written: Ghost<Seq<u8>> }
+        impl ZlibEncoder {
+            #[verifier::external_body]
+            pub fn new(w: Vec<u8>, level: Compression) -> (r: ZlibEncoder)
+                ensures r.written@ == Seq::<u8>::empty(), r.sink@ == w@ { unimplemented!() }
+            /// std::io::Write::write_all on a Vec sink cannot fail
+            #[verifier::external_body]
+            pub fn write_all(&mut self, buf: &[u8]) -> (r: Result<(), crate::stdshim::io::Error>)
+                ensures r.is_ok(), final(self).written@ == old(self).written@ + buf@, final(self).sink@ == old(self).sink@ { unimplemented!() }
+            #[verifier::external_body]
+            pub fn finish(self) -> (r: Result<Vec<u8>, crate::stdshim::io::Error>)
+                ensures r.is_ok(), r.unwrap()@ == self.sink@ + zlib_of(self.written@) { unimplemented!() }
         }
     }
 }
